@@ -89,6 +89,10 @@ def step (op implObs : String) : String × List String × List String :=
     (if kvStr itoks "big" = "1" then ["C08 reader-alloc-exceeds-bound"] else []) ++
     (if implMsgs = "-" ∨ implMsgs = "" then [] else
       ((implMsgs.splitOn ";").filterMap (msgBoundViol max)).eraseDups.map fun k => s!"C08 reader-delivers-oversized kind={k}")
+  -- C11: a block that arrives slowly (read deadline expiring between bursts, `cuts=`) is delivered byte for byte
+  -- and the frames after it are decoded from the right position
+  let viol := viol ++ (if (kv? toks "cuts").isSome && kvStr toks "cuts" ≠ "-" && implObs ≠ obs
+    then ["C11 slow-block-not-delivered-intact"] else [])
   -- model-side self check: the allocation effects of the model respect the bounds (theorem
   -- `reader_alloc_bound`; evaluated here so a broken model edit shows up as a violation too)
   let effOk := o.effs.all fun e => match e with
